@@ -133,6 +133,42 @@ def run(tier, seed, replay):
                     k += 1
                     cases.append({"text": t, "config": c["config"], "again": True, "lex": False})
                     meta.append(("imports/c11.%d" % k, "orig", c["form"], "100"))
+    # lists whose elements carry trailing comments (of different widths, so that their alignment is in play), with and without a blank
+    # line between two commented elements, under both style-edition families; attributes followed by a comment on the same line
+    if not replay or json.load(open(replay)).get("pool_id", "").startswith("clist/"):
+        from . import c03
+        k = 0
+        for li, (wrap, pre, elems, suf) in enumerate(c03.LIST_FORMS):
+            for blank in (False, True):
+                for style in ("line", "block"):
+                    rows = []
+                    for ei, el in enumerate(elems):
+                        cm = ("// note %d %s" % (ei, "x" * (3 * ei))) if style == "line" else ("/* note %d %s */" % (ei, "x" * (3 * ei)))
+                        rows.append("    %s, %s" % (el, cm))
+                        if blank and ei == 0:
+                            rows.append("")
+                    inner = pre + "\n" + "\n".join(rows) + "\n" + suf
+                    text = (wrap % inner) if wrap else inner + "\n"
+                    for se in ("2015", "2024"):
+                        for w in ("100", "60", "40"):
+                            k += 1
+                            if tier != "thorough" and (k + seed) % 2:
+                                continue
+                            cases.append({"text": text, "config": [["style_edition", se], ["max_width", w]], "again": True, "lex": False})
+                            meta.append(("clist/%d.%s.%s" % (li, "blank" if blank else "tight", style), "orig", "se" + se, w))
+        ATTR_ITEMS = ["#[cfg(feature = \"some_feature_name\")] /* why this import is conditional */ use some_crate::some_module::SomeItemName;",
+                      "#[macro_use] /* the macros of the crate */ extern crate some_long_crate_name_for_macros;",
+                      "#[path = \"some/long/path/to/module_file.rs\"] /* lives elsewhere */ mod relocated_module_name;",
+                      "#[derive(Debug, Clone)] /* plain data */ struct PlainData { first_field: u32, second_field: u32 }",
+                      "#[inline] // hot path\nfn hot_path_function(argument_one: u32) -> u32 { argument_one }"]
+        for ai, it in enumerate(ATTR_ITEMS):
+            for nest in (0, 1):
+                text = it + "\n" if not nest else "mod m {\n    " + it.replace("\n", "\n    ") + "\n}\n"
+                for w in range(30, 121):
+                    if tier != "thorough" and (w + ai + seed) % 3:
+                        continue
+                    cases.append({"text": text, "config": [["max_width", str(w)]], "again": True, "lex": False})
+                    meta.append(("clist/attr%d.n%d" % (ai, nest), "orig", "base", str(w)))
     res = common.run_vh_pool("pool", cases, per_case_timeout=15)
     n_acc = 0
     nontrivial = set()
